@@ -651,8 +651,9 @@ class Convect(BasicOperator):
 
         args_1 = [i for i in a if not i.is_commutative]
         c1     = [i for i in a if not i in args_1]
-        args_2 = [i for i in b if not i.is_commutative]
-        c2     = [i for i in b if not i in args_2]
+        # only constants may leave the argument that is differentiated
+        c2     = [i for i in b if i.is_commutative and i.is_number]
+        args_2 = [i for i in b if not i in c2]
 
         a = reduce(mul, args_1)
         b = reduce(mul, args_2)
